@@ -67,6 +67,9 @@ func checkC08(c *Ctx) {
 	c.Rule("C08-R14", "a blank of width 1 for zero-width or control runes: GetContent returns as primary rune only ' ', zero, or the stored rune on a path where its width is not 0 and it is not a control (= C09-R2)")
 	c.Expect("C08-R14", 2)
 	c.asRule("C09-R2", "C08-R14", func() { c09Sanitiser(c, p) })
+	c.Rule("C08-R15", "changing a wide rune also dirties every column it covered, whatever the lock of the base cell: the dirtying calls of SetContent are under no test of the lock flag")
+	c.Expect("C08-R15", 1)
+	checkWideDirtyIgnoresLock(c, p, "C08-R15")
 	ms := cbMethods(p)
 	for _, need := range []string{"SetContent", "GetContent", "Dirty", "SetDirty", "Invalidate", "Resize", "Fill", "LockCell", "UnlockCell"} {
 		if ms[need] == nil {
